@@ -9,7 +9,7 @@ PROP = {
     "n": {"quick": 2300, "thorough": 40000, "smoke": 2100},
     "theorems": ["graph_inv", "graph_inv_step", "remove_vertex_effect", "reachable_correct", "unreachable_correct", "idom_check_sound",
                  "dominators_check_sound", "df_check_sound", "semi_nca_correct_le_3", "algorithms_correct_le_3",
-                 "dom_of_idom", "dom_of_root", "df_of_idom", "df_of_root", "dom_antisym", "topo_check_sound", "trans_preds_check_sound", "acyclic_check_sound",
+                 "dom_of_idom", "dom_of_root", "df_of_idom", "df_of_root", "dom_antisym", "topo_check_sound", "topo_check_complete", "trans_preds_check_sound", "acyclic_check_sound",
                  "domtree_check_sound", "reducible_check_sound", "loops_check_sound", "back_edges_correct", "remove_unreachable_correct", "pre_order_perm", "dominator_tree_of_idoms", "looptree_check_sound",
                  "tab_ok_always", "idom_exists", "idom_unique", "dominator_tree_correct", "compute_dominators_correct", "compute_back_edges_correct",
                  "compute_dominance_frontiers_correct", "unreachable_excluded", "pre_order_search_order",
